@@ -10,24 +10,24 @@ def s1(test, qchecks, tchecks, qshards=4, tshards=16, timeout_q=240, timeout_t=1
 
 
 TESTS = {
-    "C01": [s1("TestC01_S1Conformance", 20000, 250000)],
-    "C02": [s1("TestC02_Linearizable", 200, 10000, timeout_t=3000)],
-    "C03": [s1("TestC03_S1Visibility", 20000, 250000), s1("TestC03_S4Phases", 150, 3000, timeout_t=2400)],
-    "C04": [s1("TestC04_S1Bound", 15000, 200000), s1("TestC04_S1Burst", 600, 10000), s1("TestC04_S3Bound", 2500, 60000, timeout_t=2400), s1("TestC04_S4Bound", 150, 3000, timeout_t=2400)],
-    "C05": [s1("TestC05_S1Bookkeeping", 15000, 200000), s1("TestC05_S1Burst", 600, 10000), s1("TestC05_S3Bookkeeping", 2500, 60000, timeout_t=2400), s1("TestC05_S4Bookkeeping", 150, 3000, timeout_t=2400)],
-    "C06": [s1("TestC06_S1Events", 15000, 200000), s1("TestC06_S1Burst", 600, 10000), s1("TestC06_S3Events", 2500, 60000, timeout_t=2400), s1("TestC06_S4Events", 150, 3000, timeout_t=2400)],
-    "C07": [s1("TestC07_S1Justified", 20000, 250000)],
-    "C08": [s1("TestC08_SingleFlight", 25000, 400000), s1("TestC08_S4Overlap", 300, 6000, timeout_t=2400)],
-    "C09": [s1("TestC09_WritePlacement", 25000, 400000)],
-    "C10": [s1("TestC10_S1Loads", 20000, 250000)],
-    "C11": [s1("TestC11_S1Refresh", 20000, 250000), s1("TestC11_S1NoRefresh", 3000, 30000, qshards=1, tshards=4), s1("TestC11_S2InFlight", 15000, 250000)],
-    "C12": [s1("TestC12_S1Deadlines", 20000, 250000)],
-    "C13": [s1("TestC13_S1Sweep", 20000, 250000), s1("TestC13_ClockGate", 6000, 100000)],
-    "C14": [s1("TestC14_DrainProtocol", 6000, 150000, timeout_t=2400)],
-    "C15": [s1("TestC15_SeqModel", 4000, 60000), s1("TestC15_Concurrent", 250, 4000, timeout_t=2400), s1("TestC15_CacheIteration", 150, 3000, timeout_t=2400)],
-    "C16": [s1("TestC16_SeqModel", 8000, 150000), s1("TestC16_Concurrent", 150, 3000, timeout_t=2400), s1("TestC16_S3", 4000, 80000, timeout_t=2400)],
+    "C01": [s1("TestC01_S1Conformance", 40000, 250000, qshards=8)],
+    "C02": [s1("TestC02_Linearizable", 250, 10000, qshards=8, timeout_t=3000)],
+    "C03": [s1("TestC03_S1Visibility", 40000, 250000, qshards=6), s1("TestC03_S4Phases", 300, 3000, timeout_t=2400)],
+    "C04": [s1("TestC04_S1Bound", 30000, 200000), s1("TestC04_S1Burst", 1000, 10000), s1("TestC04_S3Bound", 5000, 60000, timeout_t=2400), s1("TestC04_S4Bound", 300, 3000, timeout_t=2400)],
+    "C05": [s1("TestC05_S1Bookkeeping", 30000, 200000), s1("TestC05_S1Burst", 1000, 10000), s1("TestC05_S3Bookkeeping", 5000, 60000, timeout_t=2400), s1("TestC05_S4Bookkeeping", 300, 3000, timeout_t=2400)],
+    "C06": [s1("TestC06_S1Events", 30000, 200000), s1("TestC06_S1Burst", 1000, 10000), s1("TestC06_S3Events", 5000, 60000, timeout_t=2400), s1("TestC06_S4Events", 300, 3000, timeout_t=2400)],
+    "C07": [s1("TestC07_S1Justified", 40000, 250000, qshards=8)],
+    "C08": [s1("TestC08_SingleFlight", 50000, 400000, qshards=6), s1("TestC08_S4Overlap", 600, 6000, timeout_t=2400)],
+    "C09": [s1("TestC09_WritePlacement", 50000, 400000, qshards=8)],
+    "C10": [s1("TestC10_S1Loads", 40000, 250000, qshards=8)],
+    "C11": [s1("TestC11_S1Refresh", 40000, 250000, qshards=6), s1("TestC11_S1NoRefresh", 3000, 30000, qshards=1, tshards=4), s1("TestC11_S2InFlight", 30000, 250000)],
+    "C12": [s1("TestC12_S1Deadlines", 40000, 250000, qshards=8)],
+    "C13": [s1("TestC13_S1Sweep", 40000, 250000, qshards=6), s1("TestC13_ClockGate", 10000, 100000)],
+    "C14": [s1("TestC14_DrainProtocol", 8000, 150000, qshards=8, timeout_t=2400)],
+    "C15": [s1("TestC15_SeqModel", 6000, 60000), s1("TestC15_Concurrent", 400, 4000, timeout_t=2400), s1("TestC15_CacheIteration", 200, 3000, timeout_t=2400)],
+    "C16": [s1("TestC16_SeqModel", 15000, 150000), s1("TestC16_Concurrent", 250, 3000, timeout_t=2400), s1("TestC16_S3", 6000, 80000, timeout_t=2400)],
     "C17": [s1("TestC17_SeqModel", 20000, 300000), s1("TestC17_Concurrent", 300, 6000, timeout_t=2400), s1("TestC17_S3", 6000, 120000, timeout_t=2400), s1("TestC17_S1ReadBursts", 8000, 120000)],
-    "C18": [s1("TestC18_Sketch", 60000, 1500000)],
-    "C19": [s1("TestC19_S1SaveLoad", 15000, 200000)],
-    "C20": [s1("TestC20_S1Stats", 20000, 250000), s1("TestC20_S4Stats", 150, 3000, timeout_t=2400)],
+    "C18": [s1("TestC18_Sketch", 150000, 1500000, qshards=8)],
+    "C19": [s1("TestC19_S1SaveLoad", 40000, 200000, qshards=8)],
+    "C20": [s1("TestC20_S1Stats", 40000, 250000, qshards=6), s1("TestC20_S4Stats", 300, 3000, timeout_t=2400)],
 }
